@@ -151,7 +151,7 @@ PROPS = {
                        "markers (enabled: every write pushes a fresh distinct id; otherwise the null version is replaced). After every step GET of "
                        "every key equals the top of its stack (404 for a marker / nothing), at the end every live version is retrievable byte-"
                        "exact with its own metadata under its id, and the complete version listing equals the model: same (key, id) set, versions "
-                       "vs markers, exactly the top flagged latest, no duplicates, pagination terminates. Every version check is repeated with HEAD by version id; a copy of a key onto itself with replaced metadata is a write like any other (enabled and suspended). Also: refused uploads (the versions must stay as they were), copies by version id, delimiters in the version listing. Every write carries two user metadata entries, one under a name that depends on the write: the whole set is compared per version (an entry inherited from another version shows). Writes carry a tag set; a key whose current version is a delete marker must read as missing through HEAD, GetObjectTagging and GetObjectAttributes as well."),
+                       "vs markers, exactly the top flagged latest, no duplicates, pagination terminates. Every version check is repeated with HEAD by version id; a copy of a key onto itself with replaced metadata is a write like any other (enabled and suspended). Also: refused uploads (the versions must stay as they were), copies by version id, delimiters in the version listing. Every write carries two user metadata entries, one under a name that depends on the write: the whole set is compared per version (an entry inherited from another version shows). Writes carry a tag set; a key whose current version is a delete marker must read as missing through HEAD, GetObjectTagging and GetObjectAttributes as well. Refused uploads come in six kinds (wrong Content-MD5, wrong checksum header, eleven tags, a malformed tag string, lock headers on a bucket without object lock, oversized metadata): refused or accepted, the versions must be what the answers said."),
         "level_note": "a delete of a key that never existed may or may not create a marker (both accepted); directory-marker keys are excluded by the statement. In-process engine. Exploration only.",
         "rule": ("case = (sidecar, pre ops, ops). Non-trivial: the program deletes the current version / marker while older entries exist, or a null version "
                  "predates enabling; distinct by the full case."),
